@@ -19,7 +19,7 @@ RULE = ("cases = grid over (num_x, odd num_y, span/chord cosine blends, rect/CRM
         "non-trivial when the generator returned a mesh with >= 2 panels and all post-conditions were evaluated; "
         "distinct = distinct case description digests")
 ASSUMPTIONS = ["numpy arithmetic", "OpenMDAO executes connected components in data-flow order"]
-REQUIRED_FAMILIES = ["gen/shape", "gen/half_is_left_of_full", "gen/getFullMesh", "msec/edges_coincide", "unify/node_for_node"]
+REQUIRED_FAMILIES = ["gen/shape", "gen/half_is_left_of_full", "gen/getFullMesh", "msec/edges_coincide", "unify/node_for_node", "unify/join_separation"]
 
 TOL = 1e-12
 
@@ -268,7 +268,30 @@ def run_unify(c, o):
         if c["with_toc"]:
             surf["t_over_c_cp"] = [np.array([0.1 + 0.01 * i]) for i in range(ns)]
         p = om.Problem(reports=False)
-        dc = [np.array([1, 1, 1]) for _ in range(ns - 1)]
+        # each shared edge monitored along its own (non-empty) subset of axes
+        mrng = np.random.default_rng(int(c["mesh"].get("seed", 0)) + ns)
+        masks = [[1, 1, 1], [1, 0, 0], [0, 1, 0], [0, 0, 1], [1, 1, 0], [1, 0, 1], [0, 1, 1]]
+        dc = [np.array(masks[int(mrng.integers(len(masks)))] if mrng.random() < 0.7 else [1, 1, 1]) for _ in range(ns - 1)]
+        if ns > 1:
+            # the joining component alone, fed with section meshes that have been moved apart by known vectors: the reported separation
+            # of every shared edge is (left edge of the outboard neighbour) - (right edge of the section), leading then trailing edge point,
+            # along the axes selected for that edge
+            from openaerostruct.geometry.geometry_multi_join import GeomMultiJoin
+
+            moved = [q + mrng.normal(size=3) * 0.05 * scale for q in parts]
+            pj = om.Problem(reports=False)
+            ivj = om.IndepVarComp()
+            for i, q in enumerate(moved):
+                ivj.add_output("sec%d_join_mesh" % i, val=q.copy(), units="m")
+            pj.model.add_subsystem("ivc", ivj, promotes=["*"])
+            pj.model.add_subsystem("join", GeomMultiJoin(sections=secs, dim_constr=[d.copy() for d in dc]), promotes=["*"])
+            if guarded_setup(o, pj, "unify/join_setup"):
+                exp = np.concatenate([(moved[e + 1][[0, -1], 0] - moved[e][[0, -1], -1])[:, np.array(dc[e], bool)].ravel() for e in range(ns - 1)])
+                got = np.ravel(pj.get_val("section_separation"))
+                if got.shape != exp.shape:
+                    o.true("unify/join_separation", False, "section_separation has %d entries, expected %d for masks %s" % (got.size, exp.size, [d.tolist() for d in dc]))
+                else:
+                    o.close("unify/join_separation", got, exp, rtol=1e-13, scale=scale, what="separation of moved sections, masks %s" % [d.tolist() for d in dc])
         p.model.add_subsystem("surface", MultiSecGeometry(surface=surf, joining_comp=(ns > 1), dim_constr=dc,
                                                           shift_uni_mesh=c["shift"]))
         if guarded_setup(o, p, "unify/group_setup"):
